@@ -7,6 +7,8 @@ import (
 	"sort"
 	"strings"
 	"time"
+
+	"github.com/ory/fosite"
 )
 
 // C17 — pushed authorization requests are one-time, client-bound and authoritative.
@@ -41,7 +43,7 @@ type c17Case struct {
 	MaxPush  int     `json:"max_push,omitempty"`
 }
 
-var c17PushVars = []string{"plain", "pkce-oidc", "with-request_uri", "badsecret", "auth-mismatch", "auth-mismatch-request", "public-P"}
+var c17PushVars = []string{"plain", "pkce-oidc", "with-request_uri", "badsecret", "auth-mismatch", "auth-mismatch-request", "public-P", "form-post"}
 var c17Extras = []string{"none", "redirect_uri", "scope", "state", "response_type", "response_mode", "audience", "code_challenge", "nonce", "new-key", "fault-delete", "uri-trail-space"}
 
 const c17L = 300 // PAR context lifetime (server default 5 min)
@@ -62,6 +64,10 @@ func c17Run(c c17Case, res *WRes) (outcomes []string) {
 	prefix := c.Prefix
 	if prefix == "" {
 		prefix = "urn:ietf:params:oauth:request_uri:"
+	}
+	if a, ok := w.Mem.Clients["A"].(*fosite.DefaultClient); ok {
+		// client A may use every response mode (needed for the pushed form_post variant)
+		w.Mem.Clients["A"] = &fosite.DefaultResponseModeClient{DefaultClient: a, ResponseModes: []fosite.ResponseModeType{fosite.ResponseModeQuery, fosite.ResponseModeFragment, fosite.ResponseModeFormPost}}
 	}
 	var pushes []*c17Push
 	viol := func(upto int, fp, what, exp string, obs any) {
@@ -98,6 +104,8 @@ func c17Run(c c17Case, res *WRes) (outcomes []string) {
 				form.Set("code_challenge_method", "S256")
 			case "with-request_uri":
 				form.Set("request_uri", prefix+"abc")
+			case "form-post":
+				form.Set("response_mode", "form_post")
 			case "badsecret":
 				auth = BasicAuth("A", "wrong")
 			case "auth-mismatch", "auth-mismatch-request":
@@ -252,7 +260,11 @@ func c17Run(c c17Case, res *WRes) (outcomes []string) {
 				p.used = true
 				// the authorization proceeds with the pushed values
 				wantRedirect := p.form.Get("redirect_uri")
-				if !strings.HasPrefix(o.Location, wantRedirect+"?") {
+				if p.variant == "form-post" {
+					if o.FormPost == nil || o.FormAct != wantRedirect {
+						viol(i, "C17/override/response_mode/extra="+op.Extra, "the pushed response_mode=form_post was not used to deliver the authorization response", "auto-submitting form posting to "+wantRedirect, o.Location+o.FormAct)
+					}
+				} else if !strings.HasPrefix(o.Location, wantRedirect+"?") {
 					viol(i, "C17/override/redirect_uri/extra="+op.Extra, "the authorization response was not sent to the pushed redirect_uri", wantRedirect, o.Location)
 				}
 				if o.Param("state") != p.form.Get("state") {
